@@ -936,7 +936,10 @@ impl<'a, F: FeatureProvider, V: VariationInfo> CompilationCtx<'a, F, V> {
                             "Invalid lookup: expected GSUB, found GPOS",
                         );
                     }
-                    lookups.push(id);
+                    // a named block without rules has no lookup: nothing to apply
+                    if id != LookupId::Empty {
+                        lookups.push(id);
+                    }
                 }
                 (glyphs, lookups)
             })
@@ -1226,7 +1229,10 @@ impl<'a, F: FeatureProvider, V: VariationInfo> CompilationCtx<'a, F, V> {
                             "Invalid lookup type: expected GPOS, found GSUB",
                         );
                     }
-                    lookups.push(id);
+                    // a named block without rules has no lookup: nothing to apply
+                    if id != LookupId::Empty {
+                        lookups.push(id);
+                    }
                 }
 
                 (glyphs, lookups)
